@@ -168,21 +168,33 @@ DepthInUse(c, k, e) ==
         ds == { Labels(ns.name) : ns \in { x \in HeldNS(c, k, e) : IsSubdomain(e.qname, x.name) /\ x.target \in hosts } }
     IN IF ds = {} THEN 0 ELSE CHOOSE d \in ds : \A d2 \in ds : d2 <= d
 
-AllowedIn(c, k) ==
-    UNION { LET e == c.runs[k].exchanges[i] IN
-            IF Clean(e) THEN { Key(x) : x \in Relevant([name |-> e.qname, type |-> e.qtype], DepthInUse(c, k, e),
-                                                       [rcode |-> e.reply.rcode, answers |-> e.reply.answers,
-                                                        authority |-> e.reply.authority, additional |-> e.reply.additional]) }
-            ELSE {}
-            : i \in DOMAIN c.runs[k].exchanges }
+\* records one clean exchange allows in
+AllowedBy(c, k, e) ==
+    IF Clean(e) THEN { Key(x) : x \in Relevant([name |-> e.qname, type |-> e.qtype], DepthInUse(c, k, e),
+                                               [rcode |-> e.reply.rcode, answers |-> e.reply.answers,
+                                                authority |-> e.reply.authority, additional |-> e.reply.additional]) }
+    ELSE {}
+
+AllowedIn(c, k) == UNION { AllowedBy(c, k, c.runs[k].exchanges[i]) : i \in DOMAIN c.runs[k].exchanges }
+
+\* what is put into the cache between exchange i and the next one comes from the reply of exchange i (hook H2 numbers
+\* the cache operations, hook H3 notes how many had happened when an exchange started)
+InsertsAfter(c, k, i) ==
+    LET r == c.runs[k]
+        lo == r.exchanges[i].cache_seq
+        hi == IF i < Len(r.exchanges) THEN r.exchanges[i + 1].cache_seq ELSE Len(r.cache_events)
+    IN { r.cache_events[j] : j \in { x \in DOMAIN r.cache_events : x > lo /\ x <= hi /\ r.cache_events[x].ev = "insert" } }
 
 InsertedBeforeKeys(c, k) == { <<x.name, x.type, x.data>> : x \in InsertedBefore(c, k) }
 
 C06OK(c, k) ==
     LET r == c.runs[k] IN
     c.mode = "recursive" =>
-        /\ \A x \in { y \in Range(r.cache_events) : y.ev = "insert" } :
-              <<x.name, x.type, x.data>> \in AllowedIn(c, k)
+        /\ \A i \in DOMAIN r.exchanges :
+              \A x \in InsertsAfter(c, k, i) : <<x.name, x.type, x.data>> \in AllowedBy(c, k, r.exchanges[i])
+        /\ \A x \in { r.cache_events[j] : j \in { y \in DOMAIN r.cache_events :
+                                                    r.cache_events[y].ev = "insert"
+                                                    /\ (r.exchanges = <<>> \/ y <= r.exchanges[1].cache_seq) } } : FALSE
         /\ \A i \in DOMAIN r.result.rrs :
               \/ Key(r.result.rrs[i]) \in AllowedIn(c, k)
               \/ Key(r.result.rrs[i]) \in { Key(x) : x \in Range(c.cache) } \cup InsertedBeforeKeys(c, k)
